@@ -74,7 +74,7 @@ add("C11", "model_checking", "Params.tla transcribes the parameter pipeline (ren
 
 LIFE_NOTE = "trusted: the ptrace supervisor, TLC, the real client used for the queries; one 2-step DAG; wall-clock clauses are not claimed"
 add("C08", "fault_enumeration", "AgentLife.tla models the start-up / shutdown order of agent.Run with a crash anywhere and TLC checks 'a run cut short is reported neither running nor succeeded' and 'the latest-status query never fails'; "
-    "the real binary is SIGKILLed at every relevant system call of start-up, execution and shutdown (quick: every 3rd), then the real client is asked for the latest status and the DAG is started again with the real binary; TLC judges every record; "
+    "the real binary is SIGKILLed at every relevant system call of start-up, execution, handlers and shutdown, then the real client is asked for the latest status and the DAG is started again with the real binary; TLC judges every record; "
     "second stage: what a finished run says about its steps under stop / timeout interleavings (no step left running, no failed step labelled finished): invariant C08_FinalLabels of StepSched "
     "and SchedObserve's C08 clauses on gate-driven and free runs of the real scheduler (families stop, outcome, timeout, replimit)",
     LIFE_NOTE, "TLA+ life-cycle model (TLC) + ptrace kill-point enumeration on the real binary judged by TLC", "agentlife", "5/C08")
